@@ -1,9 +1,10 @@
 package engine
 
 import (
+	"fmt"
+	"sort"
 	"go/token"
 	"go/types"
-	"strings"
 
 	"golang.org/x/tools/go/ssa"
 )
@@ -66,9 +67,14 @@ func (fr *frame) call(cc *ssa.CallCommon, st *State, site ssa.Value, pos token.P
 			return res
 		}
 		if ct := c.W.Contracts[name]; ct != nil {
+			if ct.Iterator {
+				if res, ok := fr.iteratorCall(ct, cc, args, st, pos, name); ok {
+					return res
+				}
+			}
 			return fr.contractCall(ct, nil, cc, append([]T{recv}, args...), st, pos, name)
 		}
-		return fr.defaultCall(name, cc, st, strings.HasPrefix(cc.Method.Pkg().Path(), ModPath))
+		return fr.defaultCall(name, cc, st, methodInRepo(cc.Method))
 	}
 	callee := cc.StaticCallee()
 	var bindings []T
@@ -93,6 +99,11 @@ func (fr *frame) call(cc *ssa.CallCommon, st *State, site ssa.Value, pos token.P
 		return res
 	}
 	ct := c.W.Contracts[name]
+	if ct != nil && ct.Iterator {
+		if res, ok := fr.iteratorCall(ct, cc, args, st, pos, name); ok {
+			return res
+		}
+	}
 	if ct != nil && !ct.Inline {
 		return fr.contractCall(ct, callee, cc, args, st, pos, name)
 	}
@@ -117,7 +128,7 @@ func (fr *frame) defaultCall(name string, cc *ssa.CallCommon, st *State, inRepo 
 	c := fr.c
 	if inRepo {
 		c.Unverified[name] = true
-		c.havocAll(st)
+		c.havocAllCallee(st, cc)
 	} else {
 		c.Defaults[name] = true
 	}
@@ -132,7 +143,9 @@ func (fr *frame) inlineCall(callee *ssa.Function, args, bindings []T, st *State,
 	sub.params = args
 	sub.freev = bindings
 	sub.contract = c.W.Contracts[ShortName(callee)]
-	fr.activeAtCall = c.active
+	if fr.activeAtCall == nil || !c.scan {
+		fr.activeAtCall = c.active
+	}
 	savedPrefix := c.prefix
 	c.prefix = c.prefix + callee.Name() + ">"
 	c.inlineDepth++
@@ -357,4 +370,92 @@ func (fr *frame) atCall(name string, st *State, pos token.Pos) {
 		c.oblige(st, "at-call", name+": "+cl.Text, t, pos)
 	}
 	c.atCallSeen[name]++
+}
+
+// iteratorCall models a call to a function declared `iterator`: it invokes
+// its func argument (a closure known at this call site) an arbitrary number of
+// times on arbitrary arguments and has no other effect on the verified heap.
+// The closure body is treated as the body of a loop: heaps it writes are
+// havocked, the top-level frame conditions are assumed at the head and
+// re-established after one arbitrary execution of the body.
+func (fr *frame) iteratorCall(ct *Contract, cc *ssa.CallCommon, args []T, st *State, pos token.Pos, name string) ([]T, bool) {
+	c := fr.c
+	var clo *closureDesc
+	for _, a := range cc.Args {
+		if _, ok := under(a.Type()).(*types.Signature); ok {
+			if d, ok := c.closures[fr.val(a).S]; ok {
+				clo = d
+			}
+		}
+	}
+	if clo == nil {
+		return nil, false
+	}
+	c.UsedContracts[name] = true
+	c.iterSeq++
+	key := fmt.Sprintf("%s#iter%d", fr.key, c.iterSeq)
+	c.comment("iterator %s over closure %s", name, ShortName(clo.fn))
+	if c.scan {
+		c.loopWrites[key] = map[string]bool{}
+	} else {
+		if c.loopAll[key] {
+			c.havocAll(st)
+		} else {
+			var names []string
+			for n := range c.loopWrites[key] {
+				names = append(names, n)
+			}
+			sort.Strings(names)
+			for _, n := range names {
+				if n == HLockW || n == HLockR || n == HDefW || n == HDefR {
+					continue
+				}
+				if n == HAlloc {
+					old := c.getHeap(st, n)
+					c.havocHeap(st, n)
+					nw := st.heaps[n]
+					c.emit("(assert (forall ((a Ref)) (! (=> (select %s a) (select %s a)) :pattern ((select %s a)))))", old.S, nw.S, nw.S)
+					continue
+				}
+				c.havocHeap(st, n)
+			}
+		}
+		for _, fc := range c.topFrameConds(st) {
+			c.assume(st, fc.cond)
+		}
+	}
+	// one arbitrary execution of the body
+	body := st.clone()
+	var bargs []T
+	for _, p := range clo.fn.Params {
+		v := c.fresh("it_"+p.Name(), c.R.SortOf(p.Type()))
+		c.assumeValid(body, v, p.Type())
+		bargs = append(bargs, v)
+	}
+	saved := c.active
+	if c.scan {
+		c.active = append(append([]string(nil), c.active...), key)
+	}
+	fr.activeAtCall = c.active
+	fr.inlineCallWithActive(clo.fn, bargs, clo.bindings, body, pos)
+	c.active = saved
+	if !c.scan {
+		for _, fc := range c.topFrameConds(body) {
+			c.oblige(body, "frame-inv", "iterator "+name+": "+fc.name, fc.cond, pos)
+		}
+		lockNames := []string{HLockW, HLockR}
+		for _, h := range lockNames {
+			if _, ok := c.R.heaps[h]; ok {
+				c.oblige(body, "lock-balance-loop", "iterator "+name+": "+h, Eq(c.getHeap(body, h), c.getHeap(st, h)), pos)
+			}
+		}
+	}
+	return fr.freshResults(st, cc.Signature(), "iter"), true
+}
+
+func (fr *frame) inlineCallWithActive(callee *ssa.Function, args, bindings []T, st *State, pos token.Pos) []T {
+	keep := fr.c.active
+	res := fr.inlineCall(callee, args, bindings, st, pos)
+	fr.c.active = keep
+	return res
 }
